@@ -183,6 +183,84 @@ CHECKS["C13"] = dict(
     note=SEM_NOTE, technique=SEM_TECH + " with a separate device store for OpenACC data regions",
     design_ref="DESIGN.md section 4 C13, F.11", engine="FortranSem")
 
+CHECKS["C02"] = dict(
+    level="model_checking",
+    text=("FortranExpr.tla transcribes the F2008 expression grammar (R1001-R1022) as a recursive-descent "
+          "Parse plus a minimal-parenthesis printer; TLC model-checks Parse(Unparse(t)) = t and necessity of "
+          "every parenthesis for all trees to depth 2 (all operators) and depth 3 (reduced sets). 52k "
+          "well-typed trees (all depth-2 trees, depth-3 families, literals of every kind, array/structure "
+          "accesses, calls) are built from REAL PSyIR nodes, written by FortranWriter, tokenised, and TLC "
+          "decides per tree: Conforming (Parse succeeds), SameTree (Parse(tokens) = tree), ReaderAgrees."),
+    note=("Trusted: the tokenizer and the PSyIR projection (c02_lib.py). Exhaustive to the stated depths. "
+          "Five genuine writer defect shapes in findings.d/C02.json."),
+    technique="TLA+ grammar spec + TLC exhaustive model checking + TLC validation of the real writer's output",
+    design_ref="DESIGN.md section 4 C02, F.9", engine="FortranExpr")
+CHECKS["C17"] = dict(
+    level="model_checking",
+    text=("FortranExpr!EvalInt gives Fortran integer semantics (truncating division, MOD with the sign of the "
+          "dividend, MIN/MAX, **, array elements as uninterpreted functions); its division/MOD/power laws are "
+          "model-checked. 12k queries (all pairs of <=1-operator expressions, 50 rewrite patterns x 39 bases, "
+          "expand, solve_equal_for) are put to the real SymbolicMaths and TLC evaluates both sides over all "
+          "valuations in -4..4 per variable: EqualSound, NeverEqualSound, SolutionSound, ExpandSound."),
+    note=("Trusted: tree <-> PSyIR conversion. Bounded valuations; 'False' answers never constrain. Three genuine "
+          "defect shapes in findings.d/C17.json."),
+    technique="TLA+ integer semantics evaluated by TLC over all bounded valuations against the real answers",
+    design_ref="DESIGN.md section 4 C17", engine="FortranExpr")
+CHECKS["C29"] = dict(
+    level="model_checking",
+    text=("KernelOutput.tla models up to 3 concurrent rename_and_write runs, one action per file-system call "
+          "(O_CREAT|O_EXCL create, write halves, close, open-for-read, read+compare), a shared directory and "
+          "kernel versions; TLC explores all interleavings (invariants WrittenByOne, NamesInside, PsyUsesOwn, "
+          "SingleUsesSame, SingleFailOnlyIfDifferent, NoPartialVerdict). Every 1- and 2-run schedule and "
+          "sampled/edge-covering 3-run schedules are replayed with REAL concurrent runs (threads whose "
+          "os/open calls in psyGen are held by a scheduler shim, one step in flight), the directory is "
+          "projected after each step, and the recorded traces are validated by TLC against the same actions."),
+    note=("Trusted: the syscall shim and directory projection. One LFRic kernel subject, threads of one "
+          "interpreter. The single-scheme read-back race is a known finding (findings.d/C29.json)."),
+    technique="TLA+ concurrent protocol model + TLC exhaustive interleavings + schedule replay on the real code + TLC trace validation",
+    design_ref="DESIGN.md section 4 C29, F.4", engine="KernelOutput")
+CHECKS["C21"] = dict(
+    level="model_checking",
+    text=("LFRicArgOrder.tla transcribes the user guide's argument-ordering rules as Args(metadata) and "
+          "contains the metadata generator TLC enumerates (1140 metadata quick: general-purpose, domain, "
+          "inter-grid, CMA kernels; stencils, basis/diff-basis x quadrature/evaluator shapes, mesh and "
+          "reference-element properties). For each, the real kernel-stub generator and the real PSy-layer "
+          "generator are run, both argument lists are itemised (type, kind, rank, intent, role) and TLC "
+          "decides position by position: SameCount, CallMatchesStub, StubFollowsDoc, CallFollowsDoc."),
+    note=("Trusted: the itemisers of the generated Fortran and the transcription of the guide. Three genuine code "
+          "defects and six documentation/code deviations are listed in findings.d/C21.json."),
+    technique="TLA+ rule transcription + TLC-enumerated metadata family + TLC validation of both real generators",
+    design_ref="DESIGN.md section 4 C21", engine="LFRicArgOrder")
+
+CHECKS["C25"] = dict(
+    level="model_checking",
+    text=("GOceanRegion.tla defines grid, index offsets, point types and the iteration regions the user guide "
+          "documents (built-in and user-defined spaces with {start}/{stop}); TLC checks the design invariants "
+          "(within depth-1 halo, contains internal, Internal within All) for all offsets x types x spaces x "
+          "grids 1..4^2 and enumerates the case family (240 invokes, 5164 transformation histories <= 2 of "
+          "fusion, OMP, ACC, extraction, constant loop bounds, move-boundaries). Real kernels/algorithms/"
+          "config files are generated, the real transformations applied, and the lowered loop nests are "
+          "exported and EXECUTED by TLC under FortranSem.tla on grids 1..3^2 and three field environments: "
+          "EachPointOnce, VisitedEqualsRegion, WithinDepth1Halo, ContainsInternal, PerPointSequenceUnchanged."),
+    note=("Trusted: exporter hooks, and the spec-side model of the dl_esm_inf internal/whole members (the "
+          "library is not bundled). Three genuine defect shapes in findings.d/C25.json."),
+    technique="TLA+ region spec + TLC-enumerated histories + TLC execution of the real generated loop nests",
+    design_ref="DESIGN.md section 4 C25", engine="GOceanRegion")
+CHECKS["C26"] = dict(
+    level="model_checking",
+    text=("TransTxn.tla: a stack of open transformation attempts with Begin/StartMutating/Edit/Commit/Refuse/"
+          "Crash over a fingerprint (written text, symbol-table views, node-identity tree); invariants "
+          "TextUnchanged/SymbolsUnchanged/TreeIdentityUnchanged on refusal, code-written-after = before, "
+          "refusals erasable; model-checked for all short histories (an undisciplined variant is rejected). "
+          "Traces come from a recorder wrapping apply of all 86 Transformation subclasses (a) under 4 "
+          "directories of the repository's own test-suite and (b) in a generated driver: 77 transformations x "
+          "every node / node range of 5 programs (Fortran, NEMO-style, LFRic, GOcean) x option dictionaries, "
+          "in scripts of up to 4 commits; every attempt (about 19k) is validated by TLC against the spec."),
+    note=("Trusted: the fingerprint projections listed in the evidence (LFRic/GOcean trees judged on symbols and "
+          "tree, lazily created symbols ignored). Three findings in findings.d/C26.json."),
+    technique="TLA+ transaction spec + TLC model checking + TLC trace validation of recorded real attempts",
+    design_ref="DESIGN.md section 4 C26, F.10", engine="TransTxn")
+
 NOT_YET = {}
 
 ALL = [f"C{i:02d}" for i in range(1, 30)]
